@@ -115,6 +115,7 @@ var engineCases = []engineCase{
 	// "Y" adds the mirror image of T. Forgetting must hit all of them at once.
 	{"zzTransitiveWindow", "X", map[string]probeWant{"before": {"=", "<>"}, "a": {"<=>", ""}}},
 	{"zzMirrorWindow", "Y", map[string]probeWant{"a": {"<=>", ""}}},
+	{"zzSwitchConjunctions", "T", map[string]probeWant{"one": {"<=>", ""}, "two": {"<=>", ""}}},
 	{"zzMinWrongDirection", "T", map[string]probeWant{"a": {"<=>", ""}, "b": {"<=", ">"}}},
 }
 
